@@ -12,7 +12,8 @@ if ! git -C "$wt" apply "$patch"; then echo "PATCH-DOES-NOT-APPLY $name"; git -C
 ( cd "$wt" && go build ./... ) || { echo "BUILD-FAILS $name"; git -C /repo worktree remove --force "$wt"; exit 2; }
 suite=FAIL
 for try in 1 2 3 4; do
-  out=$( cd "$wt" && go test -vet=off -count=1 ./... 2>&1 )
+  # a private network namespace: the repository's client tests bind the fixed port 9043
+  out=$( cd "$wt" && unshare -n sh -c 'ip link set lo up && go test -vet=off -count=1 ./...' 2>&1 )
   if echo "$out" | grep -q "^FAIL\|--- FAIL"; then
     if echo "$out" | grep -q "address already in use"; then sleep 7; continue; fi
     suite=FAIL; break
